@@ -411,7 +411,16 @@ func (p *Prog) assignTypeRoles() {
 // serialLockVars: mutexes whose purpose is to serialise a whole operation —
 // the one Client.Start/Client.Client take, and the one the multiplexed dialer takes.
 func (p *Prog) serialLockVars() map[*types.Var]string {
+	out, _ := p.serialLocks()
+	return out
+}
+
+// serialLocks also returns, per serialisation lock, the functions designated
+// to take it: a wait under the lock is excused only in their regions (or in
+// their synchronous callees), not wherever else the lock gets taken.
+func (p *Prog) serialLocks() (map[*types.Var]string, map[*types.Var]map[*Func]bool) {
 	out := map[*types.Var]string{}
+	holders := map[*types.Var]map[*Func]bool{}
 	add := func(f *Func, why string) {
 		if f == nil {
 			return
@@ -419,6 +428,10 @@ func (p *Prog) serialLockVars() map[*types.Var]string {
 		for _, call := range f.Calls() {
 			if v, op := p.lockOp(f, call); v != nil && op == "lock" {
 				out[v] = why
+				if holders[v] == nil {
+					holders[v] = map[*Func]bool{}
+				}
+				holders[v][f] = true
 			}
 		}
 	}
@@ -431,5 +444,5 @@ func (p *Prog) serialLockVars() map[*types.Var]string {
 			}
 		}
 	}
-	return out
+	return out, holders
 }
